@@ -195,6 +195,19 @@ class Ghost:
                 self.producers.setdefault(pname, set()).add(name)
                 if len(self.producers[pname]) > 1:
                     sim.probe("identical_pack_name_from_two_actors")
+            if op == "open_write_stream" and "/repository/indices/" in path:
+                # index files are written in place under their final content-hash name: a second writer of
+                # the same name (or a name that is on disk already) is the duplicate-pack-name family
+                pname = path.rsplit("/", 1)[1].rsplit(".", 1)[0]
+                who = self.producers.setdefault(pname, set())
+                who.add(name)
+                try:
+                    if self.t.has("indices/" + path.rsplit("/", 1)[1]):
+                        who.add("<on-disk>")
+                except Exception:  # noqa: BLE001
+                    pass
+                if len(who) > 1:
+                    sim.probe("identical_pack_name_from_two_actors")
             if op == "put" and path.endswith("/repository/pack-names"):
                 self.before_names = (name, self.disk_names())
             if (op == "move" and "/repository/packs/" in path) or (op == "delete" and "/repository/packs/" in path):
@@ -336,6 +349,10 @@ def execute(sim, plan):
                 oracle, site = "durability", "dangling-pack-names-entry:duplicate-pack-name"
             elif type(a.exc).__name__ == "BadIndexData" and g.dup_names():
                 site = "BadIndexData:duplicate-pack-name"
+            elif isinstance(a.exc, FileNotFoundError) and "write stream was open" in str(a.exc) and g.dup_names():
+                # the in-place index file of a pack whose name another process has produced (and meanwhile
+                # obsoleted and deleted) vanished under the writer
+                site = "write-stream-file-removed:duplicate-pack-name"
             elif n in g.failed_in_pack and re.search(r"\.[rits]ix|\.cix", g.failed_in_pack[n]) and g.failed_in_pack[n] in str(a.exc):
                 site = "NoSuchFile:index-read-inside-pack-operation"
             sim.fail(oracle, [oracle, "preempt", site], f"actor {n} ({plan['actors'][n]}) failed with {type(a.exc).__name__}: {a.exc}\n{tb}")
